@@ -228,6 +228,22 @@ func stressTemplates(thorough bool) []hostileInput {
 		"o[0] = o[4294967295u];", "let c = vec4<i32>(1); o[0] = u32(c[-1]);", "var a: array<u32, 2>; o[0] = a[1u << 31u];"} {
 		add(fmt.Sprintf("const-index-oob-%d", i), entry(body))
 	}
+	// the same with the index exactly one past the end, on every kind of constant composite (literal constructor, splat,
+	// zero value, let-bound, module constant; vectors, arrays, matrices, nested)
+	for i, body := range []string{"o[0] = u32(vec3(1.0, 2.0, 3.0)[3]);", "o[0] = vec4<u32>(7u)[4];", "o[0] = vec2<u32>()[2];", "o[0] = array(1u, 2u, 3u)[3];", "o[0] = array<u32, 2>()[2];",
+		"let v = vec3(1u, 2u, 3u); o[0] = v[3];", "o[0] = u32(mat2x2(1.0, 2.0, 3.0, 4.0)[2][0]);", "o[0] = u32(mat2x3<f32>()[1][3]);", "o[0] = array(vec2(1u, 2u), vec2(3u, 4u))[2].x;", "o[0] = array(vec2(1u, 2u), vec2(3u, 4u))[1][2];",
+		"o[0] = CW[3];", "o[0] = u32(CV[3]);", "o[0] = CA[2][0];", "o[0] = CA[1][2];", "const k = 3; o[0] = CW[k];", "o[0] = CW[1 + 2];", "o[0] = vec3(1u, 2u, 3u).xyz[3];"} {
+		add(fmt.Sprintf("const-index-end-%d", i), "const CW = array(1u, 2u, 3u);\nconst CV = vec3(1.0, 2.0, 3.0);\nconst CA = array(array(1u, 2u), array(3u, 4u));\n"+entry(body))
+	}
+	// call graphs in which every function calls its predecessor twice: linear in size, 2^n paths
+	for _, n := range []int{12, 16, 20, 24, 32, 48} {
+		var sb strings.Builder
+		sb.WriteString("fn g0() -> u32 { return 1u; }\n")
+		for i := 1; i <= n; i++ {
+			fmt.Fprintf(&sb, "fn g%d() -> u32 { return g%d() + g%d(); }\n", i, i-1, i-1)
+		}
+		add(fmt.Sprintf("diamond-calls-%d", n), sb.String()+entry(fmt.Sprintf("o[0] = g%d();", n)))
+	}
 	add("const-index-oob-builtin", hostilePrelude+"@compute @workgroup_size(1) fn main(@builtin(global_invocation_id) gid: vec3<u32>) { o[0] = gid[7]; }")
 	// shared sub-expressions: a chain of lets each used twice (expression DAG of depth n, tree size 2^n)
 	chain := []int{24, 28}
